@@ -4,10 +4,11 @@
    PARTIAL: proved for direct worker-to-worker wiring (a refused subscription changes nothing, no self edge, at most
    one publisher per input port and one exactly when the port is registered - after any call sequence); the full
    claims are refuted (witnesses below) for placeholders and for the two-step train call; the remaining invariants
-   (apply-xor-train, one trained member per group, trained workers publish nothing) are checked on every generated
-   sequence by the correspondence oracle but not proved. *)
+   (apply-xor-train, one trained member per group, trained workers publish nothing, only existing output ports are
+   published) are proved for direct wiring too (C11_topology_direct_partial) and checked on every generated sequence,
+   placeholders included, by the correspondence oracle. *)
 Require Import List Bool Arith.
-From FV Require Import Model.C11 Proofs.C11 Proofs.C11Single.
+From FV Require Import Model.C11 Proofs.C11 Proofs.C11Single Proofs.C11Inv.
 Import ListNotations.
 
 (* direct wiring: a refused subscription leaves the graph exactly as it was (extensionally) *)
@@ -34,6 +35,18 @@ Theorem C11_single_publisher_direct_partial : forall u, worker_only u -> forall 
   /\ (forall n p, has_port st' n p = true <-> exists k, In (n, p) (get_out k (outs st'))).
 Proof. exact single_publisher. Qed.
 Print Assumptions C11_single_publisher_direct_partial.
+
+(* direct wiring: after any sequence of subscribe / train calls (refused ones included) every node is subscribed on apply
+   ports or on train/label ports but never both; a published output port exists and belongs to an untrained node (a
+   trained worker publishes nothing); at most one member of a worker group is trained *)
+Theorem C11_topology_direct_partial : forall u, worker_only u -> forall ops st' ok,
+  Forall (in_range u) ops -> In (st', ok) (run u empty ops) ->
+  (forall n p q, In p (get_ports n (ports st')) -> In q (get_ports n (ports st')) -> is_apply p = is_apply q)
+  /\ (forall n i, get_out (n, i) (outs st') <> [] -> i < szout_of u n /\ trained st' n = false)
+  /\ (forall n m g, n < List.length u -> m < List.length u -> gid_of u n = Some g -> gid_of u m = Some g ->
+                    trained st' n = true -> trained st' m = true -> n = m).
+Proof. exact topology_invariants. Qed.
+Print Assumptions C11_topology_direct_partial.
 
 (* the full claim "at most one publisher per input port" is FALSE with placeholders:
    f[0].subscribe(a[0]); f[0].subscribe(b[0]); w[0].subscribe(f[0]) - all three calls succeed and w@Apply[0]
